@@ -19,6 +19,15 @@ def cells(tier):
     out += make_cells(PID, 'atomic', tier, N=3, thin=plain, extra={'prefail': True}, suffix='after-refused-messages')
     # ... and when every story was re-sent by a roStorySend before
     out += make_cells(PID, 'atomic', tier, N=3, thin=plain, extra={'presend': True}, suffix='after-roStorySend-of-every-story')
+    # roDelete / roReadyToAir into timed, untimed, empty running orders; a roDelete naming another or no running order
+    from .p_c03 import icell
+    T_ = 60 if tier == 'quick' else 600
+    for op in ('roDelete', 'roReadyToAir'):
+        for N_ in (0, 2):
+            out.append(icell(PID, op, N=N_, T=T_, prop='atomic'))
+    out.append(icell(PID, 'roDelete', N=2, T=T_, prop='atomic', free_roid=True))
+    out.append(icell(PID, 'roDelete', N=2, T=T_, prop='atomic', twice='free'))
+    out.append(icell(PID, 'roDelete', N=2, T=T_, prop='atomic', edstart='2022-03-04T12:29:45', last_ended='2022-03-04T13:00:00Z'))
     # a container that holds the same ID twice (first and last element)
     out += make_cells(PID, 'atomic', tier, N=3, thin=plain, extra={'dup_state': [0, 2]}, suffix='repeated-id-in-container')
     # messages whose messageID is not a number (or blank) and whose references all resolve: nothing has to be
